@@ -6,6 +6,8 @@
 
 package syntax
 
+import "sort"
+
 // GenerateCall creates a CallStm calling the given Callable with the given
 // inputs.  Missing inputs are null.
 func GenerateCall(target Callable, args map[string]Exp) *CallStm {
@@ -114,4 +116,16 @@ func abstractExpForType(typ Type, node *AstNode, types *TypeLookup) ValExp {
 	return &NullExp{
 		valExp: valExp{Node: *node},
 	}
+}
+
+// sortedMapKeys returns the keys of m in sorted order.  Iterating over these
+// instead of over the map makes anything derived from the iteration order
+// (in particular the order of accumulated error messages) deterministic.
+func sortedMapKeys[V any](m map[string]V) []string {
+	keys := make([]string, 0, len(m))
+	for k := range m {
+		keys = append(keys, k)
+	}
+	sort.Strings(keys)
+	return keys
 }
